@@ -1,41 +1,40 @@
 #!/usr/bin/env python3
-"""tools/make_seed_tasks.py <prev-round-dir> <new-round-dir> <Cxx>...
-Derives the task files of a new seeding round from the previous round's (TASK.md per property): same text, the new paths, and the
-previous round's stored changes (seeded/*/meta.json written after <prev-round-dir>/Cxx/TASK.md) appended to the lists of ideas already
-taken (own property and related properties).  Creates a scratch worktree of /repo per property."""
+"""tools/make_seed_tasks.py <round-number> <new-round-dir> <Cxx>...
+Writes the task file of a seeding round for each property (tools/seed_task_template.md: the property's JSON record from properties.jsonl, the
+summaries of every stored change for that property and for related properties - those that share an anchor file - as "ideas already taken")
+and creates a scratch worktree of /repo per property under <new-round-dir>/Cxx/repo.  The sub-agent gets ONLY `<new-round-dir>/Cxx/TASK.md`.
+Evaluate with tools/eval_mutant.py <new-round-dir>/Cxx/repo <seed-id> <Cxx> [<Cyy>…]; remove the worktrees afterwards
+(`git -C /repo worktree remove --force …`)."""
 import glob
 import json
 import os
-import re
 import subprocess
 import sys
 
-prev, new, props = sys.argv[1], sys.argv[2], sys.argv[3:]
+rnd, new, props = sys.argv[1], sys.argv[2].rstrip("/"), sys.argv[3:]
 ROOT = os.path.dirname(os.path.dirname(os.path.abspath(__file__)))
-pn, nn = os.path.basename(prev.rstrip("/")), os.path.basename(new.rstrip("/"))
+tmpl = open(os.path.join(ROOT, "tools", "seed_task_template.md")).read()
+P = {}
+for l in open(os.path.join(ROOT, "properties.jsonl")):
+    if l.strip():
+        d = json.loads(l)
+        P[d["id"]] = d
 seeds = {}
 for p in glob.glob(ROOT + "/seeded/*/meta.json"):
     m = json.load(open(p))
-    seeds.setdefault(m.get("property"), []).append((os.path.getmtime(p), os.path.basename(os.path.dirname(p)), m.get("summary", "")))
+    seeds.setdefault(m.get("property"), []).append(m.get("summary", ""))
 for c in props:
-    src = open(os.path.join(prev, c, "TASK.md")).read()
-    t0 = os.path.getmtime(os.path.join(prev, c, "TASK.md"))
-    own = [s for (t, i, s) in seeds.get(c, []) if t > t0]
-    related = sorted(set(re.findall(r"^\* \[(C\d\d)\]", src, re.M)))
-    rel = [(r, s) for r in related for (t, i, s) in seeds.get(r, []) if t > t0]
-    out = src.replace(prev, new).replace("(round %s)" % pn[-1], "(round %s)" % nn[-1])
-    lines = out.split("\n")
-    res = []
-    for l in lines:
-        res.append(l)
-        if l.startswith("Ideas already used in earlier rounds"):
-            res += ["* " + s[:330].replace("\n", " ") for s in own]
-        if l.startswith("Ideas used for RELATED properties"):
-            res += ["* [%s] %s" % (r, s[:230].replace("\n", " ")) for r, s in rel]
+    files = set(P[c]["anchors"]["files"])
+    related = [q for q in sorted(P) if q != c and files & set(P[q]["anchors"]["files"])]
+    own = "\n".join("* " + s[:330].replace("\n", " ") for s in seeds.get(c, [])) or "* (none yet)"
+    rel = "\n".join("* [%s] %s" % (q, s[:230].replace("\n", " ")) for q in related for s in seeds.get(q, [])) or "* (none yet)"
     d = os.path.join(new, c)
     os.makedirs(d, exist_ok=True)
-    open(os.path.join(d, "TASK.md"), "w").write("\n".join(res))
+    t = (tmpl.replace("@ROUND@", rnd).replace("@DIR@", d).replace("@ROOT@", new).replace("@PROP_JSON@", json.dumps(P[c], indent=1))
+         .replace("@OWN_IDEAS@", own).replace("@RELATED_IDEAS@", rel).replace("@PROP@", c))
+    open(os.path.join(d, "TASK.md"), "w").write(t)
     wt = os.path.join(d, "repo")
     subprocess.run(["git", "-C", "/repo", "worktree", "remove", "--force", wt], capture_output=True)
     r = subprocess.run(["git", "-C", "/repo", "worktree", "add", "--detach", wt, "HEAD"], capture_output=True, text=True)
-    print(c, "own ideas +%d, related +%d" % (len(own), len(rel)), "worktree", "ok" if r.returncode == 0 else r.stderr[-200:])
+    print(c, "own ideas %d, related (%s) %d" % (len(seeds.get(c, [])), ",".join(related), sum(len(seeds.get(q, [])) for q in related)),
+          "worktree", "ok" if r.returncode == 0 else r.stderr[-200:])
